@@ -47,6 +47,12 @@ func (k Keeper) SendClaimTx(
 			ctx.Logger().Info("could not get sessionCtx in auto send claim tx, could be due to relay timing before commit is in store: " + er.Error())
 			continue
 		}
+		// an ongoing session is still collecting relays: its evidence is neither claimed nor judged
+		// (and possibly discarded) before the session is over
+		if ctx.BlockHeight() <= evidence.SessionBlockHeight+k.BlocksPerSession(sessionCtx)-1 { // ensure session is over
+			ctx.Logger().Info("the session is ongoing, so will not send the claim-tx yet")
+			continue
+		}
 		// if the evidence length is less than minimum, it would not satisfy our merkle tree needs
 		if evidence.NumOfProofs < keeper.MinimumNumberOfProofs(sessionCtx) {
 			if err := pc.DeleteEvidence(evidence.SessionHeader, evidenceType, node.EvidenceStore); err != nil {
@@ -87,10 +93,6 @@ func (k Keeper) SendClaimTx(
 				}
 				continue
 			}
-		}
-		if ctx.BlockHeight() <= evidence.SessionBlockHeight+k.BlocksPerSession(sessionCtx)-1 { // ensure session is over
-			ctx.Logger().Info("the session is ongoing, so will not send the claim-tx yet")
-			continue
 		}
 		// if the blockchain in the evidence is not supported then delete it because nodes don't get paid/challenged for unsupported blockchains
 		if !k.IsPocketSupportedBlockchain(sessionCtx.WithBlockHeight(evidence.SessionHeader.SessionBlockHeight), evidence.SessionHeader.Chain) {
